@@ -5,6 +5,7 @@ package main
 import (
 	"fmt"
 	"go/types"
+	"strings"
 
 	"golang.org/x/tools/go/ssa"
 )
@@ -22,6 +23,7 @@ const (
 	AElem
 	ACell
 	AGlobal
+	ALocal // non-escaping local variable: its own scalar state component(s)
 )
 
 type Addr struct {
@@ -64,6 +66,10 @@ type Exec struct {
 	knownLen map[string]int
 	unfolded map[string]bool
 	autoExcl map[string]bool
+	Locals   map[string]string // local state components: name -> sort
+	refEpoch map[string]string // fresh ref term -> epoch id at creation
+	neid     int
+	nlocal   int
 	Active   map[string]*Contract // schema contracts usable at recursive call sites
 	depth    int
 	stack    []*ssa.Function
@@ -84,12 +90,16 @@ func (x *Exec) comp(st State, name string) Term {
 	}
 	sort, ok := x.E.CompSorts[name]
 	if !ok {
+		sort, ok = x.Locals[name]
+	}
+	if !ok {
 		panic("unknown heap component " + name)
 	}
 	t, ok := x.Entry[name]
 	if !ok {
 		t = x.C.Const(name+"_0", sort)
 		x.Entry[name] = t
+		x.entryHeapInv(name, t)
 	}
 	st[name] = t
 	return t
@@ -99,9 +109,62 @@ func (x *Exec) setComp(st State, name string, t Term) {
 	st[name] = x.C.Def(name, t)
 }
 
+const (
+	kEid    = "@eid"
+	kBalloc = "@balloc"
+)
+
+func curEid(st State) string {
+	if t, ok := st[kEid]; ok {
+		return t.S
+	}
+	return "0"
+}
+
+// epochReset: the base snapshot used for epoch-stable spec functions becomes the current state.
+func (x *Exec) epochReset(st State) {
+	for k := range st {
+		if strings.HasPrefix(k, "@b:") {
+			delete(st, k)
+		}
+	}
+	x.neid++
+	st[kEid] = Term{S: fmt.Sprint(x.neid)}
+	st[kBalloc] = x.comp(st, "alloc")
+}
+
+// noteStore is called before a heap store to component name at reference ref.
+func (x *Exec) noteStore(st State, name string, ref Term) (resetAfter bool) {
+	if strings.HasPrefix(name, "_L") || strings.HasPrefix(name, "G_calls_") || name == "G_held" || name == "alloc" {
+		return false
+	}
+	if e, ok := x.refEpoch[ref.S]; ok && e == curEid(st) {
+		if _, has := st["@b:"+name]; !has {
+			st["@b:"+name] = x.comp(st, name)
+		}
+		return false
+	}
+	return true
+}
+
+func (x *Exec) baseOf(st State, name string) Term {
+	if t, ok := st["@b:"+name]; ok {
+		return t
+	}
+	return x.comp(st, name)
+}
+
+func (x *Exec) baseAlloc(st State) Term {
+	if t, ok := st[kBalloc]; ok {
+		return t
+	}
+	return x.comp(x.Entry, "alloc")
+}
+
 func (x *Exec) freshRef(st State, hint string) Term {
 	a := x.comp(st, "alloc")
 	r := x.C.Def(hint, a)
+	x.refEpoch[r.S] = curEid(st)
 	x.setComp(st, "alloc", T(SInt, app("+", a.S, "1")))
 	x.nonnil[r.S] = true
 	return r
@@ -160,6 +223,8 @@ func (x *Exec) addrOfPtr(p Value, pointee types.Type) (*Addr, bool) {
 
 func (x *Exec) loadAddr(st State, a *Addr) Term {
 	switch a.Kind {
+	case ALocal:
+		return x.comp(st, a.Comp)
 	case AElem:
 		mem := x.comp(st, a.Comp)
 		row := Select(mem, a.Ref, ArrSort(a.Elem))
@@ -174,7 +239,18 @@ func (x *Exec) loadAddr(st State, a *Addr) Term {
 }
 
 func (x *Exec) storeAddr(st State, a *Addr, v Term) {
+	if a.Kind != ALocal {
+		ref := a.Ref
+		if a.Kind == AGlobal {
+			ref = Term{S: "?global"}
+		}
+		if x.noteStore(st, a.Comp, ref) {
+			defer x.epochReset(st)
+		}
+	}
 	switch a.Kind {
+	case ALocal:
+		x.setComp(st, a.Comp, v)
 	case AElem:
 		mem := x.comp(st, a.Comp)
 		row := Select(mem, a.Ref, ArrSort(a.Elem))
@@ -194,6 +270,18 @@ func (x *Exec) load(st State, p Value, typ types.Type, guard Term, site string) 
 		return x.freshValue(typ, "ld")
 	}
 	if named, sty, ok := x.structOf(typ); ok {
+		if p.Kind == VAddr && p.A.Kind == ALocal {
+			out := Value{Kind: VStruct, Typ: typ}
+			for i := 0; i < sty.NumFields(); i++ {
+				f := sty.Field(i)
+				if _, _, nested := x.structOf(f.Type()); nested {
+					out.Fields = append(out.Fields, x.freshValue(f.Type(), "ldf"))
+					continue
+				}
+				out.Fields = append(out.Fields, VT(x.comp(st, p.A.Comp+"."+f.Name()), f.Type()))
+			}
+			return out
+		}
 		if p.Kind != VTerm {
 			x.havoc(site + ": struct load through interior pointer")
 			return x.freshValue(typ, "ld")
@@ -234,6 +322,22 @@ func (x *Exec) store(st State, p Value, v Value, typ types.Type, site string) {
 		return
 	}
 	if named, sty, ok := x.structOf(typ); ok {
+		if p.Kind == VAddr && p.A.Kind == ALocal {
+			for i := 0; i < sty.NumFields(); i++ {
+				f := sty.Field(i)
+				if _, _, nested := x.structOf(f.Type()); nested {
+					continue
+				}
+				var fv Value
+				if v.Kind == VStruct && i < len(v.Fields) {
+					fv = v.Fields[i]
+				} else {
+					fv = x.freshValue(f.Type(), "stf")
+				}
+				x.setComp(st, p.A.Comp+"."+f.Name(), x.term(fv, f.Type(), site))
+			}
+			return
+		}
 		if p.Kind != VTerm {
 			x.havocAll(st, site+": struct store through interior pointer")
 			return
@@ -261,6 +365,7 @@ func (x *Exec) store(st State, p Value, v Value, typ types.Type, site string) {
 
 // havocAll forgets every heap component (used only at unsupported sites).
 func (x *Exec) havocAll(st State, site string) {
+	defer x.epochReset(st)
 	x.havoc(site + " [heap havoc]")
 	for _, name := range x.E.compNames() {
 		sort := x.E.CompSorts[name]
@@ -451,11 +556,94 @@ func (x *Exec) mergeStates(c Term, a, b State) State {
 	}
 	out := State{}
 	for k := range a {
-		out[k] = Term{}
+		if !strings.HasPrefix(k, "@b:") && k != kEid && k != kBalloc {
+			out[k] = Term{}
+		}
 	}
 	for k := range b {
-		out[k] = Term{}
+		if !strings.HasPrefix(k, "@b:") && k != kEid && k != kBalloc {
+			out[k] = Term{}
+		}
 	}
+	sameEpoch := curEid(a) == curEid(b)
+	defer func() {
+		if sameEpoch {
+			// keep the common base snapshot where both sides agree on it
+			ok := true
+			for k, v := range a {
+				if strings.HasPrefix(k, "@b:") || k == kBalloc {
+					if w, has := b[k]; !has || w.S != v.S {
+						ok = false
+					}
+				}
+			}
+			for k := range b {
+				if strings.HasPrefix(k, "@b:") || k == kBalloc {
+					if _, has := a[k]; !has {
+						ok = false
+					}
+				}
+			}
+			if ok {
+				for k, v := range a {
+					if strings.HasPrefix(k, "@b:") || k == kBalloc || k == kEid {
+						out[k] = v
+					}
+				}
+				return
+			}
+			// bases differ only in which components were touched: complete both sides
+			all := map[string]bool{}
+			for k := range a {
+				if strings.HasPrefix(k, "@b:") {
+					all[k] = true
+				}
+			}
+			for k := range b {
+				if strings.HasPrefix(k, "@b:") {
+					all[k] = true
+				}
+			}
+			good := true
+			for k := range all {
+				name := strings.TrimPrefix(k, "@b:")
+				va, hasA := a[k]
+				vb, hasB := b[k]
+				if !hasA {
+					va = x.comp(a, name)
+				}
+				if !hasB {
+					vb = x.comp(b, name)
+				}
+				if va.S != vb.S {
+					good = false
+				}
+			}
+			ba, hasBA := a[kBalloc]
+			bb, hasBB := b[kBalloc]
+			if hasBA != hasBB || (hasBA && ba.S != bb.S) {
+				good = false
+			}
+			if good {
+				for k := range all {
+					name := strings.TrimPrefix(k, "@b:")
+					if v, has := a[k]; has {
+						out[k] = v
+					} else {
+						out[k] = x.comp(a, name)
+					}
+				}
+				if hasBA {
+					out[kBalloc] = ba
+				}
+				if e, has := a[kEid]; has {
+					out[kEid] = e
+				}
+				return
+			}
+		}
+		x.epochReset(out)
+	}()
 	for _, k := range sortedKeys(out) {
 		ta := x.comp(a, k)
 		tb := x.comp(b, k)
@@ -466,4 +654,29 @@ func (x *Exec) mergeStates(c Term, a, b State) State {
 		}
 	}
 	return out
+}
+
+// entryHeapInv: the entry heap is closed under allocation (every reference stored in it exists).
+func (x *Exec) entryHeapInv(name string, t Term) {
+	if name == "alloc" {
+		return
+	}
+	var al string
+	if a, ok := x.Entry["alloc"]; ok {
+		al = a.S
+	} else {
+		al = x.comp(x.Entry, "alloc").S
+	}
+	switch name {
+	case "Mem_Val":
+		x.C.Assume(BoolLit(true), T(SBool, fmt.Sprintf("(forall ((a Int) (i Int)) (! (okval (select (select %s a) i) %s) :pattern ((select (select %s a) i))))", t.S, al, t.S)))
+	case "Mem_Slice":
+		x.C.Assume(BoolLit(true), T(SBool, fmt.Sprintf("(forall ((a Int) (i Int)) (! (okslice (select (select %s a) i) %s) :pattern ((select (select %s a) i))))", t.S, al, t.S)))
+	case "Cell_stack":
+		x.C.Assume(BoolLit(true), T(SBool, fmt.Sprintf("(forall ((q Int)) (! (okslice (select %s q) %s) :pattern ((select %s q))))", t.S, al, t.S)))
+	case "F_condition_ex", "F_condition_op", "F_nodeConfig_err":
+		x.C.Assume(BoolLit(true), T(SBool, fmt.Sprintf("(forall ((q Int)) (! (okval (select %s q) %s) :pattern ((select %s q))))", t.S, al, t.S)))
+	case "F_condition_cfg", "F_Stack_stack", "F_Condition_condition", "F_nodeConfig_log", "F_nodeConfig_mtx":
+		x.C.Assume(BoolLit(true), T(SBool, fmt.Sprintf("(forall ((q Int)) (! (okref (select %s q) %s) :pattern ((select %s q))))", t.S, al, t.S)))
+	}
 }
